@@ -6,6 +6,7 @@
 -/
 import MdProofs.Lemmas.WalkWinChainEval
 import MdProofs.Lemmas.WalkChainMixed
+import MdProofs.Lemmas.WalkScanChain32
 set_option linter.unusedSimpArgs false
 namespace MdModel.Walk
 open MdModel MdModel.Win
@@ -214,6 +215,7 @@ structure FrameIs (t : Trust) (e : Exp) (f : Frame) : Prop where
   fp : e.fp = if f.ctx.hasLit "ebp" then some (f.ctx.raw .x86 "ebp") else none
   regs : ∀ p ∈ e.regs, f.ctx.hasLit p.1 = true ∧ f.ctx.raw .x86 p.1 = p.2
   wf : ∀ r ∈ x86Regs, f.ctx.raw .x86 r ≤ U32MAX
+  m64 : f.ctx.m64 = false
 
 theorem step_of_callerOut {env : Env} {mem : Mem} {f : Frame} {g : Option Frame} {c' : Caller} {e : Exp}
     (harch : env.arch = .x86) (hcfi : env.cfi f g = some (ctxOfCaller c')) (ho : CallerOut c' e)
@@ -230,7 +232,7 @@ theorem step_of_callerOut {env : Env} {mem : Mem} {f : Frame} {g : Option Frame}
       Bool.not_false, and_true]
     rw [if_neg (by omega), if_neg (by omega)]
   · obtain ⟨v, hfp, hv, hebp⟩ := ho.ebp
-    refine ⟨hip, hsp', rfl, rfl, ?_, ?_, ?_, ?_, ctxOfCaller_wf c'⟩
+    refine ⟨hip, hsp', rfl, rfl, ?_, ?_, ?_, ?_, ctxOfCaller_wf c', rfl⟩
     · simp only [ctxOfCaller_hasLit, List.contains_iff_mem, ho.valid.1]
     · simp only [ctxOfCaller_hasLit, List.contains_iff_mem, ho.valid.2.1]
     · have : (ctxOfCaller c').hasLit "ebp" = true := by
@@ -292,6 +294,7 @@ structure WinView (f : Frame) (g : Option Frame) (st : MState) : Prop where
   gcp : gcpOf g = st.gcp
   trust : st.first = true ↔ f.trust = .context
   wf : ∀ r ∈ x86Regs, f.ctx.raw .x86 r ≤ U32MAX
+  m64 : f.ctx.m64 = false
 
 namespace WinView
 variable {f : Frame} {g : Option Frame} {st : MState} (hv : WinView f g st) (mem : Mem)
@@ -636,5 +639,239 @@ theorem step_win_fpo {os : Os} {w : World} {wins : List (List Win.Rec)} {mem : M
     have hcfi : (mkEnvW .x86 os w wins mem).cfi f g = some (ctxOfCaller c') := by
       rw [mkEnvW_cfi_x86 os w wins mem f g hv.vsp]; exact hcw
     exact step_of_callerOut rfl hcfi ho hret hretm hspm hspf
+
+/-! ### frames without any record: `get_caller_by_cfi` yields nothing -/
+
+theorem cfi_none_of_noRecord {os : Os} {w : World} {wins : List (List Win.Rec)} {mem : Mem} {f : Frame}
+    {g : Option Frame} (hn : noRecordAt w wins f.instruction = true) :
+    (mkEnvW .x86 os w wins mem).cfi f g = none := by
+  simp only [noRecordAt, Bool.and_eq_true, Option.isNone_iff_eq_none] at hn
+  obtain ⟨⟨hc, h1⟩, h2⟩ := hn
+  by_cases hsp : f.ctx.hasLit "esp" = true
+  · rw [mkEnvW_cfi_x86 os w wins mem f g hsp]
+    unfold cfiWalkW
+    split
+    · rfl
+    · rename_i i hi
+      split
+      · rename_i m sf ct hm hsf hct
+        have hs : w.syms[i]? = some (some sf) := by
+          cases hq : w.syms[i]? with
+          | none => rw [hq] at hsf; cases hsf
+          | some o => rw [hq] at hsf; simp only [Option.join_some] at hsf; rw [hsf]
+        have hct' : ct = cfiTable sf := by
+          simp only [cfiTables, List.getElem?_map, hs, Option.map_some] at hct
+          injection hct with hct
+          exact hct.symm
+        subst hct'
+        split
+        · rfl
+        · rename_i hlt
+          have hat := winAt_none (wins := wins) (by simp [h1]) (by simp [h2]) hi hm hs hlt
+          simp only [hat, winResult]
+          unfold cfiRecordAt at hc
+          simp only [hi, hm, hs, Option.join_some, if_neg hlt] at hc
+          unfold walkFrameCfi
+          simp only [if_neg hlt]
+          cases hget : RangeMap.get (cfiTable sf) (f.instruction - m.base) with
+          | none => rfl
+          | some j =>
+            simp only [hget] at hc
+            simp only [hc, Option.map_none]
+      · rfl
+  · simp only [mkEnvW, cfiOfW, effArch, Arch.isMips, Bool.false_eq_true, if_false, if_true]
+    simp only [Bool.not_eq_true] at hsp
+    simp [hsp]
+
+/-- `get_caller_frame` looks at `get_caller_by_cfi` only for this frame: when it yields nothing the
+    step is the one of the environment without CFI (for which the frame-pointer and scan lemmas of
+    `WalkChain` / `WalkScanChain32` are stated) -/
+def noCfiEnv (env : Env) : Env := { env with cfi := fun _ _ => none }
+
+theorem step_noCfiEnv {env : Env} {mem : Mem} {f : Frame} {g : Option Frame} (h : env.cfi f g = none) :
+    step env mem f g = step (noCfiEnv env) mem f g := by
+  unfold step candidate
+  simp only [h, noCfiEnv]
+  rfl
+
+/-! ### the generated end of an x86 stack -/
+
+theorem instrValid_x86_zero (env : Env) : instrValid env .x86 0 = false := by
+  simp [instrValid, instrPre]
+
+/-- no record, a dead frame pointer (invalid, or 0 with nothing readable at 0), zero words up to
+    the end of the stack memory: no technique finds a caller -/
+theorem step_end_x86_dead {env : Env} {mem : Mem} {f : Frame} {g : Option Frame}
+    (harch : env.arch = .x86) (hcfi : env.cfi f g = none) (hz : zerosFrom mem 4 f.ctx.sp = true)
+    (hfp : f.ctx.hasLit "ebp" = false ∨ (f.ctx.raw .x86 "ebp" = 0 ∧ 16 < mem.base)) :
+    step env mem f g = none := by
+  have hbf : byFp env .x86 mem f.ctx = none := by
+    simp only [byFp, fpX86]
+    rcases hfp with h | ⟨h, hb⟩
+    · simp [h]
+    · by_cases hl : f.ctx.hasLit "ebp" = true
+      · simp only [hl, h, Bool.not_true, Bool.false_eq_true, if_false]
+        rw [if_neg (by decide), read_below_base (by omega)]
+      · simp [hl]
+  have hscan : ∀ n, scanFrom (instrValid env .x86) mem 4 U32MAX f.ctx.sp n 0 = none := fun n =>
+    scanFrom_zeros (by decide) hz (instrValid_x86_zero env) n 0
+  unfold step
+  simp only [effArch, harch, Arch.isMips, Bool.false_eq_true, ↓reduceIte, candidate, hcfi, hbf, byScan, scanX86,
+    hscan]
+  cases f.ctx.hasLit "esp" <;> rfl
+
+/-- the outermost frame's record `(0, 0)`: the frame-pointer technique yields a frame with return
+    address 0, which the epilogue drops -/
+theorem step_end_x86_record {env : Env} {mem : Mem} {f : Frame} {g : Option Frame} {sp fp : Nat}
+    (harch : env.arch = .x86) (hcfi : env.cfi f g = none)
+    (hv : FpView .x86 f.ctx sp fp) (he : endFp .x86 env.os mem sp fp = true) : step env mem f g = none := by
+  rw [step_noCfiEnv hcfi]
+  exact step_end_x86 (env := noCfiEnv env) harch (fun _ _ => rfl) hv he
+
+/-! ### frames of an x86 stack found by the other techniques, below / between STACK WIN frames -/
+
+/-- **one frame through a frame-pointer record**, no record of any kind covering the lookup address -/
+theorem step_mixed_fp {os : Os} {w : World} {wins : List (List Win.Rec)} {mem : Mem} {f : Frame}
+    {g : Option Frame} {st : MState} {e : Exp} {f0 : Nat}
+    (hv : WinView f g st) (hn : noRecordAt w wins st.instr = true) (hfp : st.fp = some f0)
+    (hl : linkFp .x86 os (mkEnvW .x86 os w wins mem).mask mem st.sp f0 e = true)
+    (hregs : e.regs.isEmpty = true) (hretm : e.ret ≤ U32MAX) (hspm : e.sp ≤ U32MAX) :
+    ∃ f', step (mkEnvW .x86 os w wins mem) mem f g = some f' ∧ FrameIs .fp e f' := by
+  have hcfi : (mkEnvW .x86 os w wins mem).cfi f g = none :=
+    cfi_none_of_noRecord (by rw [hv.instr]; exact hn)
+  obtain ⟨h1, h2, _⟩ := hv.fp_some hfp
+  have hst := step_fp_x86 (env := noCfiEnv (mkEnvW .x86 os w wins mem)) (mem := mem) (f := f) (g := g) rfl
+    (fun _ _ => rfl) ⟨hv.sp, h2, hv.m64, h1⟩ hl
+  refine ⟨fpFrame .x86 e, by rw [step_noCfiEnv hcfi]; exact hst, ?_⟩
+  simp only [linkFp, Bool.and_eq_true, decide_eq_true_eq, beq_iff_eq] at hl
+  obtain ⟨⟨⟨hsome, _⟩, _⟩, ⟨⟨_, _⟩, hr2⟩, _⟩ := hl
+  obtain ⟨v, hev⟩ := Option.isSome_iff_exists.mp hsome
+  have hvle : v ≤ U32MAX := by rw [hev] at hr2; exact read4_le hr2
+  refine ⟨rfl, rfl, rfl, rfl, rfl, rfl, ?_, ?_, ?_, rfl⟩
+  · have h1 : (fpFrame Arch.x86 e).ctx.hasLit "ebp" = true := rfl
+    have h2 : Ctx.raw Arch.x86 (fpFrame Arch.x86 e).ctx "ebp" = e.fp.getD 0 := rfl
+    rw [h1, h2, hev]; rfl
+  · intro p hp
+    have : e.regs = [] := by simpa using hregs
+    rw [this] at hp; cases hp
+  · intro r hr
+    simp only [x86Regs, List.mem_cons, List.not_mem_nil, or_false] at hr
+    rcases hr with rfl | rfl | rfl | rfl | rfl | rfl | rfl | rfl | rfl | rfl
+    · exact hretm
+    · exact hspm
+    · show e.fp.getD 0 ≤ U32MAX
+      rw [hev]; exact hvle
+    all_goals exact Nat.zero_le _
+
+/-- **one frame found by scanning** (no record, the frame-pointer technique dead): junk words that
+    are not valid instructions, then the return address; the word below it is the recovered `%ebp`
+    exactly when it points further up the stack, at most 128 KiB away, at readable memory -/
+theorem step_mixed_scan {os : Os} {w : World} {wins : List (List Win.Rec)} {mem : Mem} {f : Frame}
+    {g : Option Frame} {st : MState} {e : Exp}
+    (hv : WinView f g st) (hn : noRecordAt w wins st.instr = true)
+    (hdead : fpDead .x86 os mem st.fp = true)
+    (hl : linkScanM (mkEnvW .x86 os w wins mem) .x86 mem st e = true)
+    (hret : 4096 ≤ e.ret) (hretm : e.ret ≤ U32MAX) :
+    ∃ f', step (mkEnvW .x86 os w wins mem) mem f g = some f' ∧ FrameIs .scan e f' := by
+  have hcfi : (mkEnvW .x86 os w wins mem).cfi f g = none :=
+    cfi_none_of_noRecord (by rw [hv.instr]; exact hn)
+  generalize henv : mkEnvW .x86 os w wins mem = env at hl hcfi ⊢
+  have harch : env.arch = .x86 := by rw [← henv]; rfl
+  simp only [linkScanM, Arch.ptr, Consts.ptr_x86, reduceCtorEq, false_and, if_false, Bool.and_eq_true,
+    decide_eq_true_eq, true_and, List.all_eq_true, List.mem_range, beq_iff_eq] at hl
+  generalize hk : (e.sp - 4 - st.sp) / 4 = k at hl
+  obtain ⟨⟨⟨⟨⟨⟨⟨⟨_, hes⟩, hwin⟩, hemax⟩, hrej⟩, hacc⟩, hok⟩, hefp⟩, hregs⟩ := hl
+  have hemax' : e.sp ≤ U32MAX := hemax
+  have hrej' : ∀ j, j < k → ∃ x, mem.read (st.sp + j * 4) 4 = some x ∧ instrValid env .x86 x = false := by
+    intro j hj
+    have := hrej j hj
+    split at this
+    · rename_i x hx
+      exact ⟨x, hx, by simpa using this⟩
+    · cases this
+  -- the frame pointer of the callee: invalid, or 0 with nothing readable at 0
+  simp only [fpDead, hasFpTech, Bool.not_true, Bool.false_or, Bool.or_eq_true, Option.isNone_iff_eq_none,
+    Bool.and_eq_true, beq_iff_eq, decide_eq_true_eq] at hdead
+  have hlast : (if f.ctx.hasLit "ebp" = true then some (f.ctx.raw .x86 "ebp") else none) = st.fp := hv.fp.symm
+  have hbf : byFp env .x86 mem f.ctx = none := by
+    simp only [byFp, fpX86]
+    rcases hdead with h | ⟨⟨h, _⟩, hb⟩
+    · rw [h] at hlast
+      by_cases hl : f.ctx.hasLit "ebp" = true
+      · simp [hl] at hlast
+      · simp [hl]
+    · obtain ⟨h1, h2, _⟩ := hv.fp_some h
+      simp only [h1, h2, Bool.not_true, Bool.false_eq_true, if_false]
+      rw [if_neg (by decide), read_below_base (by omega)]
+  have htr : f.trust = .context ↔ st.first = true := hv.trust.symm
+  have hscan : scanFrom (instrValid env .x86) mem 4 U32MAX f.ctx.sp (scanWindow .x86 f.trust) 0 =
+      some (k, st.sp + k * 4, e.ret) := by
+    rw [hv.sp, scanWindow_of (Or.inl rfl) htr]
+    refine scanFrom_first hrej' hacc hok (by omega) _ 0 (Nat.zero_le _) ?_
+    simp only [scanWin, Nat.zero_add]
+    exact hwin
+  -- the recovery of `%ebp`
+  have hbp : scanBpX86 mem st.fp k (st.sp + k * 4) (st.sp + k * 4 + 4) = some e.fp ∧
+      ∀ v, e.fp = some v → v ≤ U32MAX := by
+    unfold scanBpX86
+    by_cases hk0 : k = 0
+    · subst hk0
+      simp only [Nat.lt_irrefl, if_false] at hefp
+      rw [hefp]
+      exact ⟨by simp, fun v hv => by cases hv⟩
+    · have hkpos : 0 < k := by omega
+      rw [if_pos hkpos] at hefp
+      rw [if_neg hk0]
+      obtain ⟨x, hx, _⟩ := hrej' (k - 1) (by omega)
+      have ha4 : st.sp + k * 4 - 4 = st.sp + (k - 1) * 4 := by omega
+      rw [ha4] at hefp ⊢
+      simp only [hx] at hefp ⊢
+      have hgap : Consts.gap_x86 = 131072 := rfl
+      rw [hgap]
+      by_cases hc : x > st.sp + k * 4 ∧ x - (st.sp + (k - 1) * 4) ≤ 131072
+      · rw [if_pos hc]
+        by_cases hr : (mem.read x 4).isSome = true
+        · rw [if_pos ⟨hc.1, hc.2, hr⟩] at hefp
+          rw [hefp]
+          exact ⟨by simp [hr], fun v hv => by injection hv with hv; subst hv; exact read4_le hx⟩
+        · rw [if_neg (fun h => hr h.2.2)] at hefp
+          rw [hefp]
+          exact ⟨by simp [hr], fun v hv => by cases hv⟩
+      · rw [if_neg hc]
+        rw [if_neg (fun h => hc ⟨h.1, h.2.1⟩)] at hefp
+        rw [hefp]
+        refine ⟨?_, fun v hv => by cases hv⟩
+        rcases hdead with h | ⟨⟨h, _⟩, _⟩
+        · rw [h]
+        · rw [h]
+          simp only
+          rw [if_neg (by omega)]
+  have hnot : ¬ (st.sp + k * 4 + 4 > U32MAX) := by omega
+  refine ⟨{ ctx := { ip := e.ret, sp := st.sp + k * 4 + 4, rest := [("ebp", e.fp.getD 0)],
+                     valid := some (["eip", "esp"] ++ (if e.fp.isSome then ["ebp"] else [])) },
+            trust := .scan, instruction := e.ret - 1 }, ?_, ?_⟩
+  · unfold step
+    simp only [effArch, harch, Arch.isMips, Bool.false_eq_true, ↓reduceIte, candidate, hcfi, hbf, byScan, scanX86,
+      hv.vsp, hscan, Bool.not_true, if_neg hnot, hlast, hbp.1]
+    simp only [epilogue, nullish_eq, Arch.adj, Consts.adj_x86, Arch.leafOk, Bool.false_and, Bool.not_false, and_true]
+    rw [if_neg (by omega), if_neg (by rw [hv.sp]; omega)]
+  · refine ⟨rfl, hes.symm, rfl, rfl, rfl, rfl, ?_, ?_, ?_, rfl⟩
+    · cases hq : e.fp with
+      | none => rfl
+      | some v => rfl
+    · intro p hp
+      have : e.regs = [] := by simpa using hregs
+      rw [this] at hp; cases hp
+    · intro r hr
+      simp only [x86Regs, List.mem_cons, List.not_mem_nil, or_false] at hr
+      rcases hr with rfl | rfl | rfl | rfl | rfl | rfl | rfl | rfl | rfl | rfl
+      · exact hretm
+      · show st.sp + k * 4 + 4 ≤ U32MAX
+        omega
+      · show e.fp.getD 0 ≤ U32MAX
+        cases hq : e.fp with
+        | none => exact Nat.zero_le _
+        | some v => exact hbp.2 v hq
+      all_goals exact Nat.zero_le _
 
 end MdModel.Walk
